@@ -51,20 +51,58 @@ Fixpoint check_hist (c : case) (s : st) (h : list (rop * obs)) : bool :=
   | (o, ob) :: r => check_obs c s o ob && check_hist c (step s o) r
   end.
 
-Definition chk (c : case) : bool :=
+Definition chk_model (c : case) : bool :=
   (c_unused_ns c =? timeout_unused) && (c_active_ns c =? timeout_active)
   && check_hist c init (c_hist c).
 
-(* diagnostics: index of the first operation whose observation differs *)
+(* the ghost semantics (the specification itself, no table) evaluated next to the
+   real observations: after every operation the implementation tracks exactly the
+   alphabet registrations whose ghost life is Some, and matches exactly those that
+   were validated during that life *)
+Definition gst := list (regkey * (life * bool)).        (* per alphabet key: life, validated *)
+
+Definition gst_step (g : gst) (o : rop) : gst :=
+  map (fun kv : regkey * (life * bool) =>
+         let '(k, (l, v)) := kv in
+         let l' := gstep k l o in
+         let v' := match l' with
+                   | None => false
+                   | Some _ => match o with
+                               | Validate k' => if regkey_eqb k k' then true else match l with Some _ => v | None => false end
+                               | _ => match l with Some _ => v | None => false end
+                               end
+                   end in
+         (k, (l', v'))) g.
+
+Definition check_spec_obs (g : gst) (ob : obs) : bool :=
+  forallb (fun kv : regkey * (life * bool) =>
+             let '(k, (l, v)) := kv in
+             Bool.eqb (is_some l) (is_some (find_tracked k (o_tracked ob)))
+             && Bool.eqb (is_some l && v) (mem_key k (o_matched ob))) g.
+
+Fixpoint check_hist_spec (g : gst) (h : list (rop * obs)) : bool :=
+  match h with
+  | [] => true
+  | (o, ob) :: r => let g' := gst_step g o in check_spec_obs g' ob && check_hist_spec g' r
+  end.
+
+Definition chk_spec (c : case) : bool :=
+  check_hist_spec (map (fun k => (k, (None, false))) (c_keys c)) (c_hist c).
+
+Definition chk (c : case) : bool := chk_model c && chk_spec c.
+
+(* diagnostics: index of the first operation whose observation differs from the model / from the ghost *)
 Fixpoint first_bad (c : case) (s : st) (i : nat) (h : list (rop * obs)) : option nat :=
   match h with
   | [] => None
   | (o, ob) :: r => if check_obs c s o ob then first_bad c (step s o) (S i) r else Some i
   end.
-Definition where_bad (c : case) : option nat := first_bad c init 0 (c_hist c).
-
-(* the ghost semantics evaluated on the same history: what the specification
-   says should be tracked after each prefix (used by the driver's oracle
-   cross-check of its own Python transcription) *)
-Definition ghost_tracked (h : list rop) (ks : list regkey) : list bool :=
-  map (fun k => is_some (ghost h k)) ks.
+Fixpoint first_bad_spec (g : gst) (i : nat) (h : list (rop * obs)) : option nat :=
+  match h with
+  | [] => None
+  | (o, ob) :: r => let g' := gst_step g o in
+                    if check_spec_obs g' ob then first_bad_spec g' (S i) r else Some i
+  end.
+Definition where_bad (c : case) : option nat * option nat :=
+  (first_bad c init 0 (c_hist c),
+   first_bad_spec (map (fun k => (k, (None, false))) (c_keys c)) 0 (c_hist c)).
